@@ -391,9 +391,24 @@ def emit_cases(seed, n, work, spelling=True):
 def run(pid, tier, seed, work, viol_dir, known_ids=()):
     t0 = time.time()
     excluded = {}
-    ncases = {"C07": {"quick": 24, "thorough": 240}, "C17": {"quick": 8, "thorough": 60}, "C13": {"quick": 16, "thorough": 160},
+    if pid == "C03":
+        ok, er, log = BUILD.ensure("e_regex", REPO)
+        if not ok:
+            print("HARNESS-BUILD-FAILED engine=e_regex (emit)")
+            print(log[-3000:])
+            return 2, None
+        outp = os.path.join(work, "emit_rx.json")
+        subprocess.run([er, "--prop", "C03", "--mode", "emit", "--seed", str(seed % 0x7FFFFFFF or 1), "--cases", str({"quick": 16, "thorough": 160}[tier]), "--size", "80", "--out", outp], stdout=subprocess.PIPE, stderr=subprocess.STDOUT)
+        if not os.path.exists(outp):
+            print("HARNESS-ERROR e_regex emit produced nothing")
+            return 2, None
+    if pid == "C03":
+        cases = json.load(open(outp))["cases"]
+        log = ""
+    ncases = {"C03": {"quick": 16, "thorough": 160}, "C07": {"quick": 24, "thorough": 240}, "C17": {"quick": 8, "thorough": 60}, "C13": {"quick": 16, "thorough": 160},
               "C01": {"quick": 16, "thorough": 160}, "C02": {"quick": 16, "thorough": 160}, "C09": {"quick": 16, "thorough": 160}}[pid][tier]
-    cases, log = emit_cases((seed + {"C01": 101, "C02": 202, "C09": 909}.get(pid, 0)) % 0x7FFFFFFF or 1, ncases, work, spelling=(pid in ("C07", "C01", "C02", "C09")))
+    if pid != "C03":
+      cases, log = emit_cases((seed + {"C01": 101, "C02": 202, "C09": 909}.get(pid, 0)) % 0x7FFFFFFF or 1, ncases, work, spelling=(pid in ("C07", "C01", "C02", "C09")))
     if cases is None:
         print("HARNESS-BUILD-FAILED engine=e_grammar (emit)")
         print(log)
@@ -500,6 +515,67 @@ def run(pid, tier, seed, work, viol_dir, known_ids=()):
                         lab("term-kind:" + {"c": "char", "s": "string", "r": "regex(named)", "R": "regex(unnamed)", "t": "typed"}[sp["kind"]])
         for case in cases[:3]:
             samples.append({"grammar": case["grammar"]["text"], "class": case["class"], "inputs": [i["text"] for i in case["inputs"]][:8]})
+    elif pid == "C03":
+        # regex::expr<P> constructed at compile time: constexpr match("lit") via probe, run-time match through two buffers
+        pats = cases
+        jobs = []
+        per = 4
+        for gi in range(0, len(pats), per):
+            parts = [PRELUDE, "template<class T, bool = (T::run(), true)> constexpr int probe_b(int) { return T::run() ? 1 : 0; }\ntemplate<class T> constexpr int probe_b(...) { return -1; }"]
+            body = ["int main() {"]
+            for pi in range(gi, min(gi + per, len(pats))):
+                c = pats[pi]
+                parts.append("constexpr char pat%d[] = %s;\nconstexpr regex::expr<pat%d> rx%d;\nstatic_assert(regex::expr<pat%d>::dfa_size == %d, \"dfa_size\");" % (pi, cstr(bytes.fromhex(c["pattern_hex"])), pi, pi, pi, c["dfa_size"]))
+                for k, st_ in enumerate(c["strings"]):
+                    b = bytes.fromhex(st_["hex"])
+                    parts.append("struct m%d_%d { static constexpr bool run() { return rx%d.match(%s); } };" % (pi, k, pi, cstr(b)))
+                    body.append('  { static const char lit[] = %s; std::printf("RX %d %d ce=%%d sb=%%d sv=%%d\\n", probe_b<m%d_%d>(0), rx%d.match(string_buffer(std::string(lit, %d))) ? 1 : 0, rx%d.match(string_view_buffer(std::string_view(lit, %d))) ? 1 : 0); }' % (cstr(b), pi, k, pi, k, pi, len(b), pi, len(b)))
+            body.append("  return 0; }")
+            src = os.path.join(work, "rx_%d.cpp" % gi)
+            open(src, "w").write("\n".join(parts + body))
+            for cxx in ("g++", "clang++"):
+                jobs.append((gi, src, cxx))
+        with ThreadPoolExecutor(max_workers=16) as ex:
+            results = list(ex.map(lambda j: (j, compile_and_run(j[1], j[2])), jobs))
+        for (gi, src, cxx), res in results:
+            if not res["compiled"]:
+                if res.get("timeout"):
+                    notes.append("compile of %s with %s hit the time ceiling (inconclusive)" % (os.path.basename(src), cxx))
+                    continue
+                vp = os.path.join(viol_dir, "%s_compile_%s_%s.json" % (pid, cxx.replace("+", "x"), hashlib.sha1(open(src, "rb").read()).hexdigest()[:10]))
+                json.dump({"check": pid, "kind": "program03", "compiler": cxx, "source": open(src).read(), "what": "generated program does not compile", "log": res["log"]}, open(vp, "w"))
+                errs = [l for l in res["log"].splitlines() if "error" in l][:1]
+                violations.append(("a program with compile-time constructed regex::expr matchers for valid patterns does not compile with %s: %s" % (cxx, errs[0][:200] if errs else ""), vp))
+                continue
+            got = {}
+            for ln in res["out"].splitlines():
+                if ln.startswith("RX "):
+                    w = ln.split()
+                    got[(int(w[1]), int(w[2]))] = {f.split("=")[0]: int(f.split("=")[1]) for f in w[3:]}
+            for pi in range(gi, min(gi + per, len(pats))):
+                c = pats[pi]
+                for k, st_ in enumerate(c["strings"]):
+                    evaluations += 1
+                    want = 1 if st_["accept"] else 0
+                    d = got.get((pi, k))
+                    what = None
+                    if d is None:
+                        what = "no result line"
+                    elif d["ce"] == -1:
+                        what = "regex::expr::match on this string is not a constant expression (%s)" % cxx
+                    elif d["ce"] != want or d["sb"] != want or d["sv"] != want:
+                        what = "compile-time constructed matcher for %r %s (constexpr=%d string_buffer=%d string_view=%d, %s)" % (c["pattern"], "rejects a string of the language" if want else "accepts a string outside the language", d["ce"], d["sb"], d["sv"], cxx)
+                    if what:
+                        vp = os.path.join(viol_dir, "%s_%s.json" % (pid, hashlib.sha1((c["pattern_hex"] + st_["hex"] + cxx).encode()).hexdigest()[:12]))
+                        json.dump({"check": pid, "kind": "program03", "compiler": cxx, "what": what, "pattern": c["pattern"], "string_hex": st_["hex"], "expected_accept": st_["accept"], "observed": d, "source": open(src).read(), "key": [pi, k]}, open(vp, "w"))
+                        violations.append((what, vp))
+                        continue
+                    if len(bytes.fromhex(st_["hex"])) >= 2:
+                        nontrivial.add((c["pattern_hex"], st_["hex"]))
+                    if c["f5"]:
+                        excluded["F5(expected = model automaton)"] = excluded.get("F5(expected = model automaton)", 0) + (1 if st_["accept"] != st_["spec_accept"] else 0)
+                lab("compiler:" + cxx)
+        samples = [{"pattern": c["pattern"], "strings": [bytes.fromhex(x["hex"]).decode("latin-1") for x in c["strings"]][:6], "f5": c["f5"]} for c in pats[:3]]
     elif pid == "C13":
         import random
         rnd = random.Random(seed)
@@ -615,6 +691,17 @@ def replay(path):
         print(res["log"][-1500:])
         return 1
     print(res["out"][:3000])
+    if d["kind"] == "program03":
+        key = d.get("key")
+        for ln in res["out"].splitlines():
+            if key and ln.startswith("RX %d %d " % (key[0], key[1])):
+                w = ln.split(); vals = {f.split("=")[0]: int(f.split("=")[1]) for f in w[3:]}
+                want = 1 if d["expected_accept"] else 0
+                ok = vals["ce"] == want and vals["sb"] == want and vals["sv"] == want
+                print("REPLAY %s %s" % (d["check"], "PASS" if ok else "FAIL"))
+                return 0 if ok else 1
+        print("REPLAY %s FAIL (no result)" % d["check"])
+        return 1
     if d["kind"] == "program13":
         k = d.get("k")
         for ln in res["out"].splitlines():
